@@ -158,7 +158,7 @@ func TestC11Pairs(t *testing.T) {
 		PacketW: 60, AdminW: 25, EnvW: 15,
 		Packet: func(rt *rapid.T) kit.Transfer { return genC08Probe(rt, w) },
 		Admin:  kit.AdminOpt{ForeignSignerPct: 5, InvalidPct: 5},
-		Env:    kit.EnvOpt{Kinds: []string{"reescrow", "ftf_pause", "ftf_unpause", "blacklist", "unblacklist", "burn_limit", "next_block", "send_disable", "send_enable"}},
+		Env:    kit.EnvOpt{Kinds: []string{"reescrow", "ftf_pause", "ftf_unpause", "blacklist", "unblacklist", "burn_limit", "next_block", "send_disable", "send_enable", "exec_mode", "exec_mode"}},
 	}
 	rapid.Check(t, func(rt *rapid.T) {
 		c := caseC11{Prefix: kit.GenHistory(rt, prefixOpt)}
